@@ -221,6 +221,9 @@ func sameValue(x, v ssa.Value, depth int) bool {
 	if depth <= 0 {
 		return false
 	}
+	if sameCellLoad(x, v) || sameCellLoad(v, x) {
+		return true
+	}
 	switch y := x.(type) {
 	case *ssa.ChangeInterface:
 		return sameValue(y.X, v, depth-1)
@@ -375,6 +378,74 @@ func FactHolds(b *ssa.BasicBlock, op token.Token, l, r VPat) bool {
 		if condTrueMeans == taken {
 			return true
 		}
+	}
+	return false
+}
+
+// sameCellLoad: a and b are loads of the same variable cell (local, captured or global) and no store to that cell can
+// happen between them: b is in a's block after a, or in a block reached from a's block through a chain of
+// single-predecessor blocks, with no store to the cell and no call (which could run a closure writing a captured cell)
+// in between.
+func sameCellLoad(a, b ssa.Value) bool {
+	la, ok1 := a.(*ssa.UnOp)
+	lb, ok2 := b.(*ssa.UnOp)
+	if !ok1 || !ok2 || la.Op != token.MUL || lb.Op != token.MUL || la.X != lb.X || la == lb {
+		return false
+	}
+	switch la.X.(type) {
+	case *ssa.Alloc, *ssa.FreeVar, *ssa.Global:
+	default:
+		return false
+	}
+	cell := la.X
+	clobbers := func(in ssa.Instruction) bool {
+		switch x := in.(type) {
+		case *ssa.Store:
+			return x.Addr == cell
+		case ssa.CallInstruction:
+			if sc := x.Common().StaticCallee(); sc != nil && sc.Parent() == nil {
+				return false // a named function or method cannot reach a variable cell of this function
+			}
+			if x.Common().IsInvoke() {
+				return false
+			}
+			_, local := cell.(*ssa.Alloc)
+			if local {
+				// a local that is not captured by any closure cannot be written by a callee
+				for _, ref := range *cell.Referrers() {
+					if _, isMC := ref.(*ssa.MakeClosure); isMC {
+						return true
+					}
+				}
+				return false
+			}
+			return true
+		}
+		return false
+	}
+	// walk back from b to a
+	blk := lb.Block()
+	idx := -1
+	for i, in := range blk.Instrs {
+		if in == ssa.Instruction(lb) {
+			idx = i
+		}
+	}
+	for hops := 0; hops < 6; hops++ {
+		for i := idx - 1; i >= 0; i-- {
+			in := blk.Instrs[i]
+			if in == ssa.Instruction(la) {
+				return true
+			}
+			if clobbers(in) {
+				return false
+			}
+		}
+		if len(blk.Preds) != 1 {
+			return false
+		}
+		blk = blk.Preds[0]
+		idx = len(blk.Instrs)
 	}
 	return false
 }
